@@ -128,6 +128,10 @@ def _judge_pair(dist, Fm, Fc, mf, cf, y, S, form, rec, family, sub):
         rec.count("S:empty")
     if y in S:
         rec.count("S:contains-y")
+    # the response index as the numpy integers that np.arange / np.flatnonzero / topological orderings yield
+    yarg = (y, np.int64(y), y, np.intp(y), y, np.int32(y))[(form + y + len(S)) % 6]
+    if not isinstance(yarg, int):
+        rec.count("y:numpy-integer")
     Su = sorted(set(S))
     if Su:
         Css = cf[np.ix_(Su, Su)]
@@ -147,7 +151,7 @@ def _judge_pair(dist, Fm, Fc, mf, cf, y, S, form, rec, family, sub):
         return None
     ctx = {"y": y, "S": S, "cond": kappa}
     try:
-        coefs, intercept = dist.regress(y, Sarg)
+        coefs, intercept = dist.regress(yarg, Sarg)
         coefs = np.asarray(coefs, dtype=float)
     except Exception as e:
         rec.exception_violation("C06:regress-exception", family, sub, "regress raised %s" % type(e).__name__, e)
@@ -177,7 +181,7 @@ def _judge_pair(dist, Fm, Fc, mf, cf, y, S, form, rec, family, sub):
                       coefs=coefs, intercept=float(intercept), **ctx)
     # mse against the exact conditional variance
     try:
-        mse = float(dist.mse(y, Sarg))
+        mse = float(dist.mse(yarg, Sarg))
     except Exception as e:
         rec.exception_violation("C06:mse-exception", family, sub, "mse raised %s" % type(e).__name__, e)
         return None
@@ -317,8 +321,9 @@ def judge(family, case, rec):
             rec.count("too_ill_conditioned")
             continue
         try:
-            coefs, intercept = dist.regress(j, pa)
-            mse = float(dist.mse(j, pa))
+            jarg = np.int64(j) if (j + len(pa)) % 3 == 0 else j
+            coefs, intercept = dist.regress(jarg, pa)
+            mse = float(dist.mse(jarg, pa))
         except Exception as e:
             rec.exception_violation("C06:lganm-regress-exception", family, sub, "regress/mse on the LGANM population distribution raised", e)
             continue
